@@ -78,7 +78,7 @@ pub fn uuid(i: u8) -> UUID {
 pub fn uuid_model(l: Locator, u: UserId) -> UUID {
     let mut b = [0u8; 20];
     b[0] = l.to_vec()[0];
-    b[1] = u.0.serialize()[1];
+    b[1] = uid(&u);
     b[2] = 0xaa;
     UUID::from_slice(&b).unwrap()
 }
@@ -124,4 +124,112 @@ pub fn recover_pk_any(_msg: &[u8], _sig: &str) -> Result<PublicKey, bitcoin::sec
 /// that byte, so this decides equality on the harness universe without a 64-byte comparison.
 pub fn uid(u: &UserId) -> u8 {
     unsafe { *(bitcoin::secp256k1::ffi::CPtr::as_c_ptr(&u.0) as *const u8) }
+}
+
+/// User signature strings of the harness universe are identified by their first byte (0 = empty string).
+pub fn sig_of(m: u8) -> String {
+    if m == 0 {
+        String::new()
+    } else {
+        let mut s = String::with_capacity(1);
+        s.push((m & 0x7f) as char);
+        s
+    }
+}
+
+// ---- universe-identity equality stubs (sound on the harness universe only: every Txid comes from `txid_model`,
+// every BlockHash from `block_hash_model`, every UUID from `uuid(i)` / `uuid_model`, every UserId from `user(i)`,
+// every Locator from `locator(i)`: the compared prefix determines the value, the remaining bytes are zero).
+pub fn txid_eq_fast(a: &Txid, b: &Txid) -> bool {
+    let (x, y): (&[u8; 32], &[u8; 32]) = (a.as_ref(), b.as_ref());
+    x[0] == y[0] && x[1] == y[1] && x[2] == y[2] && x[3] == y[3]
+}
+pub fn blockhash_eq_fast(a: &BlockHash, b: &BlockHash) -> bool {
+    let (x, y): (&[u8; 32], &[u8; 32]) = (a.as_ref(), b.as_ref());
+    x[0] == y[0] && x[1] == y[1] && x[2] == y[2] && x[3] == y[3]
+}
+pub fn uuid_eq_fast(a: &UUID, b: &UUID) -> bool {
+    let (x, y) = unsafe { (&*(a as *const UUID as *const [u8; 20]), &*(b as *const UUID as *const [u8; 20])) };
+    x[0] == y[0] && x[1] == y[1] && x[2] == y[2]
+}
+pub fn userid_eq_fast(a: &UserId, b: &UserId) -> bool {
+    uid(a) == uid(b)
+}
+
+/// First byte of a UUID (identity on the harness universe `uuid(i)`).
+pub fn uuid_b0(u: &UUID) -> u8 {
+    unsafe { *(u as *const UUID as *const u8) }
+}
+
+// ---------------------------------------------------------------------------------------------------
+// Cryptography stubs (teos_common::cryptography::{recover_pk, sign, decrypt}); each records what it was called with.
+
+/// What `recover_pk` returns next: Some(k) = the key of user(k), None = recovery error. Set by the harness.
+pub static mut RECOVER_SCRIPT: Option<u8> = None;
+pub static mut RECOVER_CALLS: u8 = 0;
+/// Length and first two bytes of the message given to the last `recover_pk` call, first byte of the signature.
+pub static mut RECOVER_MSG: (usize, u8, u8) = (0, 0, 0);
+pub static mut RECOVER_SIG0: u8 = 0;
+
+pub fn recover_pk_scripted(msg: &[u8], sig: &str) -> Result<PublicKey, bitcoin::secp256k1::Error> {
+    unsafe {
+        RECOVER_CALLS += 1;
+        RECOVER_MSG = (msg.len(), if msg.len() > 0 { msg[0] } else { 0 }, if msg.len() > 16 { msg[16] } else { 0 });
+        RECOVER_SIG0 = sig.as_bytes().first().copied().unwrap_or(0);
+        match RECOVER_SCRIPT {
+            Some(k) => Ok(user(k).0),
+            None => Err(bitcoin::secp256k1::Error::InvalidSignature),
+        }
+    }
+}
+
+pub static mut SIGN_CALLS: u8 = 0;
+/// Length, first byte and last four bytes of the message given to the last `sign` call.
+pub static mut SIGN_MSG: (usize, u8, [u8; 4]) = (0, 0, [0; 4]);
+
+pub fn sign_model(msg: &[u8], _sk: &bitcoin::secp256k1::SecretKey) -> String {
+    unsafe {
+        SIGN_CALLS += 1;
+        let n = msg.len();
+        let mut last = [0u8; 4];
+        if n >= 4 {
+            last = [msg[n - 4], msg[n - 3], msg[n - 2], msg[n - 1]];
+        }
+        SIGN_MSG = (n, if n > 0 { msg[0] } else { 0 }, last);
+    }
+    sig_of(b'T')
+}
+
+pub static mut DECRYPT_CALLS: u8 = 0;
+/// (blob length, blob[0], blob[1], first byte of the txid) of the last `decrypt` call.
+pub static mut DECRYPT_ARGS: (usize, u8, u8, u8) = (0, 0, 0, 0);
+
+/// Ideal-cipher model on the harness universe: the blob `[1, d, ..]` decrypts, under the id of the dispute transaction
+/// `tx(d)` and under no other id, to the penalty `tx(d + 100)`; everything else fails to decrypt. ("Decrypts only under
+/// its dispute id" is therefore an assumption here; C17 is not claimed.)
+pub fn decrypt_model(blob: &[u8], secret: &Txid) -> Result<Transaction, teos_common::cryptography::DecryptingError> {
+    let id0 = AsRef::<[u8; 32]>::as_ref(secret)[0];
+    let (b0, b1) = (if blob.len() > 0 { blob[0] } else { 0 }, if blob.len() > 1 { blob[1] } else { 0 });
+    unsafe {
+        DECRYPT_CALLS += 1;
+        DECRYPT_ARGS = (blob.len(), b0, b1, id0);
+    }
+    if blob.len() >= 2 && b0 == 1 && b1 == id0 {
+        Ok(tx(b1 as u32 + 100))
+    } else {
+        Err(teos_common::cryptography::DecryptingError::Encode(bitcoin::consensus::encode::Error::ParseFailed("model: does not decrypt")))
+    }
+}
+
+/// An appointment for locator `loc` whose blob is `[b0, b1, 0...]` with `len >= 2`.
+pub fn appointment_with_blob(loc: u8, len: usize, b0: u8, b1: u8, delay: u32) -> Appointment {
+    let mut blob = blob_of_len(len);
+    blob[0] = b0;
+    blob[1] = b1;
+    Appointment::new(locator(loc), blob, delay)
+}
+
+/// Locator of the transaction `tx(n)` under the txid model (first 16 bytes of the id).
+pub fn locator_of_tx(n: u32) -> Locator {
+    Locator::new(txid_model(&tx(n)))
 }
